@@ -11,12 +11,12 @@ The profile's (base type, scale, offset) triples are regenerated (`Generated/Pro
 After the repair of F07 (/repo 1e2d662: `math.Round` before the conversion to an integer base type) the round
 trip through the helpers, the validator and the CSV reader is the identity: `C12_helpers`,
 `C12_value_route`, `C12_validator`, `C12_csv`, `C12_slice` — for every integer type of at most 32 bits, every raw value and every profile
-pair; for int64 on the exact domain |raw| ≤ 2^49 (`C12_helpers_int64`). The generated `SetXxxScaled` setters still
-truncate in their own code: `C12_typed_full_fails` (open finding KF-C12-2); what holds of them is `C12_typed_pow2_partial`.
+pair; for int64 on the exact domain |raw| ≤ 2^49 (`C12_helpers_int64`). The generated `SetXxxScaled` setters truncated in
+their own code (KF-C12-2); after the repair of the template and the regeneration of profile/mesgdef: `C12_typed`.
 
 PROPERTY THEOREMS (audited by ./check): C12_f64_round_err, C12_scale_roundtrip_rounded, C12_profile_pairs_in_range,
 C12_helpers, C12_helpers_int64, C12_value_route, C12_validator, C12_csv, C12_slice, C12_unit_identity,
-C12_datetime, C12_semicircles, C12_typed_full_fails, C12_typed_pow2_partial, C12_F07_witness_fixed
+C12_datetime, C12_semicircles, C12_typed, C12_typed_invalid, C12_typed_witness_fixed, C12_F07_witness_fixed
 -/
 namespace Fit.C12
 open Fit.F64 Fit.ScaleOffset Fit.Value Fit.C12L
@@ -199,44 +199,49 @@ theorem C12_semicircles (s : Nat) (hs : s < 2 ^ 32) :
     Fit.TimeAngle.toSemicircles (Fit.TimeAngle.toDegrees s) = s :=
   semicircles_roundtrip s hs
 
-/-! ### the generated typed accessors (open finding KF-C12-2) -/
+/-! ### the generated typed accessors -/
 
 /-- raw → generated `XxxScaled` → generated `SetXxxScaled` → raw -/
 def typedRT (ty : IntTy) (invalid r s o : Nat) : Nat :=
   setScaled ty invalid (getScaled ty invalid r s o) s o
 
-/-- FULL STATEMENT for the generated accessors (false: they truncate in their own code). -/
-def C12_typed_full : Prop :=
-  ∀ (ty : IntTy) (invalid r : Nat) (p : Nat × Nat), ty.bits ≤ 32 → r < 2 ^ ty.bits → r ≠ invalid → p ∈ profilePairs →
-    typedRT ty invalid r p.1 p.2 = r
-
-theorem C12_typed_full_fails : ¬ C12_typed_full := by
-  intro h
-  have := h .u16 0xFFFF 29 (0x4059000000000000, 0) (by decide) (by decide) (by decide) (by decide +kernel)
-  revert this
-  decide +kernel
-
 /-- the invalid sentinel of the generated accessors: the largest value of the type -/
 def maxPat (ty : IntTy) : Nat := if ty.signed then 2 ^ (ty.bits - 1) - 1 else 2 ^ ty.bits - 1
 
-/-- **C12_typed_pow2_partial** (what holds of the generated accessors on the pinned tree): for a power-of-two scale in
-[1/2, 2^16] and a zero offset — `pow2OK`, decidable on the bit patterns — the float64 arithmetic is exact at every step,
-nothing is left for the truncating conversion to cut off, and `SetXxxScaled(XxxScaled())` returns every raw value other
-than the invalid sentinel, for every integer type of at most 32 bits. (For the other pairs see `C12_typed_full_fails`.) -/
-theorem C12_typed_pow2_partial (ty : IntTy) (hty : ty.bits ≤ 32) (r : Nat) (hr : r < 2 ^ ty.bits)
-    (hrinv : r ≠ maxPat ty) (s o : Nat) (h : pow2OK s o = true) :
-    typedRT ty (maxPat ty) r s o = r := by
-  have hrb : (ty.toInt r).natAbs ≤ 2 ^ 32 :=
-    le_trans (toInt_natAbs_le ty r) (Nat.pow_le_pow_right (by norm_num) hty)
-  obtain ⟨hfin, h64⟩ := pow2_exact (ty.toInt r) hrb s o h
-  have hmax : ty.toInt r ≤ ty.toInt (maxPat ty) ∧ 0 < ty.toInt (maxPat ty) := by
+/-- **C12_typed.** The generated `XxxScaled` / `SetXxxScaled` pair of profile/mesgdef (after the repair of the
+template, /repo fix of KF-C12-2: `math.Round` before the conversion) returns every raw value of every integer type of at
+most 32 bits other than the invalid sentinel (which maps to the float64 invalid pattern and back: `C12_typed_invalid`),
+for every pair of the profile: the product `(x + offset) * scale` is finite, not above the sentinel, and rounds to the
+raw value. -/
+theorem C12_typed (ty : IntTy) (hty : ty.bits ≤ 32) (r : Nat) (hr : r < 2 ^ ty.bits) (hrinv : r ≠ maxPat ty)
+    (pr : Nat × Nat) (hpr : pr ∈ profilePairs) : typedRT ty (maxPat ty) r pr.1 pr.2 = r := by
+  have hmax : maxPat ty < 2 ^ ty.bits ∧ ty.toInt r ≤ ty.toInt (maxPat ty) ∧ 0 < ty.toInt (maxPat ty) := by
     cases ty <;> simp only [IntTy.toInt, maxPat, IntTy.signed, IntTy.bits, true_and, Bool.false_eq_true, false_and,
       if_false, if_true] at hr ⊢ <;> (try split_ifs) <;> omega
-  exact typed_exact ty hty r (maxPat ty) s o hr hrinv hmax.1 hmax.2 h64 hfin
+  exact typed_roundtrip ty hty r (maxPat ty) pr.1 pr.2 hr hmax.1 hrinv hmax.2.1 hmax.2.2
+    (C12_profile_pairs_in_range.1 pr hpr)
 
-/-- non-vacuity: 8 of the profile's scale/offset pairs are powers of two with a zero offset; the sentinel of the
-generated accessors is `maxPat` (0xFFFF for uint16) -/
-example : ((profilePairs.eraseDups).filter fun p => pow2OK p.1 p.2).length = 8 ∧ maxPat .u16 = 0xFFFF ∧
-    pow2OK 0x4070000000000000 0 = true := by decide +kernel
+/-- the invalid sentinel goes to the float64 invalid pattern (a NaN) and comes back as the sentinel -/
+theorem C12_typed_invalid (ty : IntTy) (s o : Nat) :
+    typedRT ty (maxPat ty) (maxPat ty) s o = maxPat ty := by
+  have h1 : ∀ y, decode (add Fit.Gen.float64Invalid y) = .nan := by
+    intro y
+    have : decode Fit.Gen.float64Invalid = .nan := by decide +kernel
+    have hn : decode nanBits = .nan := by decide +kernel
+    simp only [add, this]; cases decode y <;> exact hn
+  have h2 : ∀ x y, decode x = .nan → decode (mul x y) = .nan := by
+    intro x y hx
+    have hn : decode nanBits = .nan := by decide +kernel
+    simp only [mul, hx]; cases decode y <;> exact hn
+  simp only [typedRT, getScaled, if_true, setScaled]
+  have : isNaN (mul (add Fit.Gen.float64Invalid o) s) = true := by
+    simp [isNaN, h2 _ s (h1 o)]
+  simp [this]
+
+/-- non-vacuity and the former witnesses of KF-C12-2: Record.Distance 29 at scale 100 comes back as 29, Record.Altitude 1 at
+scale 5 / offset 500 as 1; the sentinel of a uint16 accessor is 0xFFFF -/
+theorem C12_typed_witness_fixed :
+    typedRT .u32 0xFFFFFFFF 29 0x4059000000000000 0 = 29 ∧
+    typedRT .u16 0xFFFF 1 0x4014000000000000 0x407f400000000000 = 1 ∧ maxPat .u16 = 0xFFFF := by decide +kernel
 
 end Fit.C12
